@@ -773,7 +773,9 @@ func c16Detail(env *scen.Env, kind string) map[string]any {
 	return map[string]any{"config": string(env.ConfJSON), "kind": kind}
 }
 
-var c16Reserved = []string{"to", "from", "user", "order", "table", "select", "default", "end", "check", "desc"}
+var c16Reserved = []string{"to", "from", "user", "order", "table", "select", "default", "end", "check", "desc",
+	// reserved (can be function or type): not usable as column names either
+	"left", "right", "full", "like", "is", "join", "binary", "natural"}
 
 func c16Run(c *vk.Case) {
 	r := c.R
